@@ -22,6 +22,13 @@ CLAIMED = {
     },
 }
 
+# per-property claim files written next to each check: manifest.d/Cxx.json with keys text, design_ref, note, technique
+MD = os.path.join(VERIF, "manifest.d")
+if os.path.isdir(MD):
+    for fn in sorted(os.listdir(MD)):
+        if fn.endswith(".json"):
+            CLAIMED[fn[:-5]] = json.load(open(os.path.join(MD, fn)))
+
 TITLES = {}
 for line in open(os.path.join(VERIF, "properties.jsonl")):
     p = json.loads(line)
